@@ -697,3 +697,64 @@ func (e *Eng) ndstreamChunks() {
 		e.add("roots#separated-by-newline", funcKey(um), []string{"C08", "C01"}, okc, detail)
 	}
 }
+
+// stage1State (C01, C04, C06): the state carried across 64-byte blocks and across index buffers lives in variables of
+// findStructuralIndices that are passed by address to the kernels. They must be allocated once, before the loop (a
+// variable declared inside the loop would reset the carry at every index-buffer hand-over), and start in the initial
+// state of the S5 specification: not inside a string, no dangling backslash, no error, the byte before the document
+// counts as white space (pseudo-structural predecessor = 1), nothing carried in the flattener.
+func (e *Eng) stage1State() {
+	props := []string{"C01", "C04", "C06"}
+	fn := e.fn("(*internalParsedJson).findStructuralIndices")
+	if fn == nil {
+		e.add("stage1#carried-state", "(*internalParsedJson).findStructuralIndices", props, false, "function not found")
+		return
+	}
+	want := map[string]int64{"prev_iter_ends_odd_backslash": 0, "prev_iter_inside_quote": 0, "error_mask": 0, "prev_iter_ends_pseudo_pred": 1, "carried": 0}
+	calls := find(fn, or(isCall("find_structural_bits_in_slice"), isCall("find_structural_bits_in_slice_avx512")))
+	ok, detail := len(calls) > 0, fmt.Sprintf("%d kernel calls", len(calls))
+	seen := map[string]bool{}
+	for _, c := range calls {
+		call := c.b.Instrs[c.i].(*ssa.Call)
+		for _, a := range call.Call.Args {
+			al, isAl := a.(*ssa.Alloc)
+			if !isAl {
+				continue
+			}
+			name := al.Comment
+			w, tracked := want[name]
+			if !tracked {
+				continue
+			}
+			seen[name] = true
+			if al.Block() != fn.Blocks[0] {
+				ok, detail = false, fmt.Sprintf("%s is allocated inside the loop (block %d): the carried state is reset at every index-buffer hand-over", name, al.Block().Index)
+				continue
+			}
+			// initial store in the entry block
+			init := int64(-12345)
+			for _, r := range *al.Referrers() {
+				if st, isSt := r.(*ssa.Store); isSt && st.Addr == ssa.Value(al) && st.Block() == fn.Blocks[0] {
+					if cst, isC := st.Val.(*ssa.Const); isC && cst.Value != nil {
+						init = cst.Int64()
+					}
+				}
+			}
+			if init == -12345 {
+				init = 0 // zero value of a fresh allocation
+			}
+			if init != w {
+				ok, detail = false, fmt.Sprintf("%s starts at %d, the S5 initial state is %d", name, init, w)
+			}
+		}
+	}
+	for name := range want {
+		if !seen[name] && ok {
+			ok, detail = false, "state variable "+name+" is not passed to the kernels by address"
+		}
+	}
+	if ok {
+		detail = "odd-backslash, inside-quote, error mask, pseudo-predecessor (=1) and flatten carry are allocated once before the loop with the S5 initial values"
+	}
+	e.add("stage1#carried-state", funcKey(fn), props, ok, detail)
+}
